@@ -16,6 +16,10 @@ TOL = 1e-9
 TOL_INF = 2e-6  # canonical_form_infinite1 documents a loss of precision to half the machine precision
 
 
+class SkipSeed(Exception):
+    """The seeded values gave an (almost) non-injective infinite MPS, outside the domain of canonical_form."""
+
+
 class Bad(Exception):
     def __init__(self, key, what):
         super().__init__(what)
@@ -437,7 +441,8 @@ def build_seed(seed):
     psi = MPS(sites, arrs, SVs, bc=bc, form=None, norm=seed.get('norm', 1.0), unit_cell_width=L)
     if infinite:
         inf = D.Infinite(Bs)
-        assert inf.gap < 0.97, 'seed is not injective'
+        if inf.gap > 0.99:
+            raise SkipSeed('ratio of the two largest transfer matrix eigenvalues %.4f: not safely injective' % inf.gap)
         model = Model(psi, dict(rho=inf.rho(seed.get('window', 2)), schmidt=[inf.schmidt(b) for b in range(L)]), False)
         model.scale = psi.norm ** 2 * inf.eta
         return psi, model
@@ -521,6 +526,8 @@ def bfs(seed, depth, tier, merge=True):
     case0 = dict(part='H', seed=seed, ops=[])
     try:
         psi, model, _ = replay_history(seed, [])
+    except SkipSeed as e:
+        return dict(evaluations=0, states=0, transitions=0, traces=0, outcomes=['seed-skipped'], violations=[], extra=dict(seeds_skipped=1), samples=[dict(seed=seed, skipped=str(e))])
     except Bad as e:
         return dict(evaluations=1, states=1, transitions=0, traces=1, outcomes=['seed-fails'],
                     violations=[dict(key=e.key, what='seed %r: %s' % (seed, e.what), case=case0)])
